@@ -1,162 +1,166 @@
 import Rare.Proofs.C10State
 /-!
-Folding a constant array of dates through a binder / a funcs-file function (C10, round 4b): the value static analysis
-folds is what EVERY evaluation on input computes – provided the library never parses, by a remembered layout, a
-value whose layout it cannot detect.  The real library does (Go's `time.Parse` skips extra spaces that
-`dateparse.ParseFormat` rejects): `fold_lenient_*` is the kernel-checked witness, the known finding `fold-lenient`.
+A `cache` date stage reached through a binder / a funcs-file function (C10, round 4b + the repair of `fold-lenient`).
+
+The stage answers from its memory (the layout the first detected date left behind), so what it answers for a value
+the caller holds constant is NOT a constant: the real library parses, by a remembered layout, values whose layout it
+cannot detect (Go's `time.Parse` skips extra spaces that `dateparse.ParseFormat` rejects).  Up to /repo 6998c9c
+(`TimeRev.v3`) the optimiser folded such a stage (`lenientLib` is the kernel-checked witness, the finding
+`fold-lenient`); since 1dba502 (`TimeRev.cur`) a static analysis touches the context whenever the stage would consult
+its memory, so the stage is folded only when EVERY value is the empty literal – and then it answers
+`<PARSE-ERROR>` per value whatever the history: `timeMap_optimize`, for every library and all element stages.
 -/
 namespace Rare.C10
 open Rare.Expr
 
-/-- The cache stage `{time {0}}` on a list of VALUES (`timeOnElems` on literals), as a plain fold. -/
-def stepList {L : Type} (lib : TimeLib L) (static : Bool) : List Bytes → TimeSt L → List Bytes × TimeSt L
-  | [], st => ([], st)
-  | v :: rest, st =>
-    ((timeStep .cur lib [] static v st).1 :: (stepList lib static rest (timeStep .cur lib [] static v st).2).1,
-      (stepList lib static rest (timeStep .cur lib [] static v st).2).2)
-
-theorem timeOnElems_lits {L : Type} (lib : TimeLib L) (static : Bool) (vals : List Bytes) :
-    ∀ st : TimeSt L, timeOnElems .cur lib (vals.map Stage.lit) static st = .ret (stepList lib static vals st) := by
-  induction vals with
-  | nil => intro st; rfl
-  | cons v rest ih =>
-    intro st
-    simp only [List.map_cons, timeOnElems, Stage.lit, Comp.bind, stepList]
-    rw [ih]
-    rfl
-
-/-- What one value answers under a remembered layout. -/
-def byLayout {L : Type} (lib : TimeLib L) (l : L) (v : Bytes) : Bytes :=
-  if v = [] then ErrorParsing else lib.parseOr l v
-
-/-- With a layout remembered, every value is answered by it and nothing changes. -/
-theorem stepList_some {L : Type} (lib : TimeLib L) (l : L) (vals : List Bytes) (s : Option L) :
-    stepList lib false vals ⟨some l, s⟩ = (vals.map (byLayout lib l), ⟨some l, s⟩) := by
-  induction vals with
-  | nil => rfl
-  | cons v rest ih =>
-    have h : timeStep .cur lib [] false v ⟨some l, s⟩ = (byLayout lib l v, ⟨some l, s⟩) := by
-      unfold timeStep byLayout
-      by_cases hv : v = [] <;> simp [hv]
-    simp only [stepList, h, ih, List.map_cons]
-
-/-- From the empty cell: either some value decides the layout `l` – and, the library rejecting under every layout
-    what it cannot detect, ALL values are answered as by `l` – or no value is detectable and all answer the error. -/
-theorem stepList_none {L : Type} (lib : TimeLib L) (hlib : ∀ s l, lib.detect s = none → lib.parse l s = none)
-    (vals : List Bytes) (s : Option L) :
-    (∃ l, stepList lib false vals ⟨none, s⟩ = (vals.map (byLayout lib l), ⟨some l, s⟩)) ∨
-      (stepList lib false vals ⟨none, s⟩ = (vals.map (fun _ => ErrorParsing), ⟨none, s⟩) ∧
-        ∀ l, vals.map (byLayout lib l) = vals.map (fun _ => ErrorParsing)) := by
-  induction vals with
-  | nil => exact .inr ⟨rfl, fun _ => rfl⟩
-  | cons v rest ih =>
-    by_cases hv : v = []
-    · have h : timeStep .cur lib [] false v ⟨none, s⟩ = (ErrorParsing, ⟨none, s⟩) := by
-        unfold timeStep; simp [hv]
-      have hb : ∀ l, byLayout lib l v = ErrorParsing := fun l => by simp [byLayout, hv]
-      rcases ih with ⟨l, hl⟩ | ⟨h0, hall⟩
-      · exact .inl ⟨l, by simp only [stepList, h, hl, List.map_cons, hb]⟩
-      · exact .inr ⟨by simp only [stepList, h, h0, List.map_cons], fun l => by simp only [List.map_cons, hb, hall l]⟩
-    · cases hd : lib.detect v with
-      | none =>
-        have h : timeStep .cur lib [] false v ⟨none, s⟩ = (ErrorParsing, ⟨none, s⟩) := by
-          unfold timeStep; simp [hv, hd]
-        have hb : ∀ l, byLayout lib l v = ErrorParsing := fun l => by
-          simp [byLayout, hv, TimeLib.parseOr, hlib v l hd]
-        rcases ih with ⟨l, hl⟩ | ⟨h0, hall⟩
-        · exact .inl ⟨l, by simp only [stepList, h, hl, List.map_cons, hb]⟩
-        · exact .inr ⟨by simp only [stepList, h, h0, List.map_cons], fun l => by simp only [List.map_cons, hb, hall l]⟩
-      | some l =>
-        have h : timeStep .cur lib [] false v ⟨none, s⟩ = (byLayout lib l v, ⟨some l, s⟩) := by
-          unfold timeStep byLayout; simp [hv, hd]
-        exact .inl ⟨l, by simp only [stepList, h, stepList_some, List.map_cons]⟩
-
-/-- A static analysis from its empty cell computes what an evaluation on input computes from its empty cell. -/
-theorem stepList_static_eq {L : Type} (lib : TimeLib L) (vals : List Bytes) :
-    ∀ (a b c : Option L), (stepList lib true vals ⟨a, c⟩).1 = (stepList lib false vals ⟨c, b⟩).1 := by
-  induction vals with
-  | nil => intro a b c; rfl
-  | cons v rest ih =>
-    intro a b c
-    have h : ∃ x c', timeStep .cur lib [] true v ⟨a, c⟩ = (x, ⟨a, c'⟩) ∧
-        timeStep .cur lib [] false v ⟨c, b⟩ = (x, ⟨c', b⟩) := by
-      unfold timeStep
-      by_cases hv : v = []
-      · exact ⟨ErrorParsing, c, by simp [hv], by simp [hv]⟩
-      · cases c with
-        | some l => exact ⟨lib.parseOr l v, some l, by simp [hv], by simp [hv]⟩
-        | none =>
-          cases hd : lib.detect v with
-          | none => exact ⟨ErrorParsing, none, by simp [hv], by simp [hv]⟩
-          | some l => exact ⟨lib.parseOr l v, some l, by simp [hv], by simp [hv]⟩
-    obtain ⟨x, c', h1, h2⟩ := h
-    simp only [stepList, h1, h2, ih a b c']
-
-/-- The stage `{@map <constant array> "{time {0}}"}` (or a funcs-file function called on constants). -/
-def constStage {L : Type} (lib : TimeLib L) (vals : List Bytes) : SStage (TimeSt L) :=
-  timeMapStage .cur lib (vals.map Stage.lit)
-
-theorem constStage_step {L : Type} (lib : TimeLib L) (vals : List Bytes) (st : TimeSt L) (ctx : Ctx) :
-    (constStage lib vals).step st ctx = (.ok (stepList lib false vals st).1.flatten, (stepList lib false vals st).2) := by
-  simp [constStage, SComp.step, timeMapStage, timeOnElems_lits, Comp.bind, Comp.run]
-
-theorem constStage_probe {L : Type} (lib : TimeLib L) (vals : List Bytes) (st : TimeSt L) :
-    (constStage lib vals).probeStep st = (.ok ((stepList lib true vals st).1.flatten, true), (stepList lib true vals st).2) := by
-  simp [constStage, SComp.probeStep, timeMapStage, timeOnElems_lits, Comp.bind, Comp.probe, Comp.probeN]
-
-/-- Evaluations on input answer one and the same value, whatever the history, from the fresh cache on. -/
-theorem constStage_real {L : Type} (lib : TimeLib L) (hlib : ∀ s l, lib.detect s = none → lib.parse l s = none)
-    (vals : List Bytes) (h : List Ctx) :
-    runReal (constStage lib vals) TimeSt.fresh h
-      = h.map fun _ => .ok (stepList lib false vals TimeSt.fresh).1.flatten := by
-  -- invariant: the state is one from which the run answers the fresh answer and comes back to such a state
-  have key : ∀ (st : TimeSt L), (stepList lib false vals st).1 = (stepList lib false vals TimeSt.fresh).1 →
-      (stepList lib false vals (stepList lib false vals st).2).1 = (stepList lib false vals TimeSt.fresh).1 →
-      (stepList lib false vals (stepList lib false vals st).2).2 = (stepList lib false vals st).2 →
-      ∀ h : List Ctx, runReal (constStage lib vals) st h
-        = h.map fun _ => .ok (stepList lib false vals TimeSt.fresh).1.flatten := by
-    intro st h1 h2 h3 h
-    induction h generalizing st with
-    | nil => rfl
-    | cons c rest ih =>
-      simp only [runReal, List.map_cons, runEvents, constStage_step, h1]
-      have := ih (stepList lib false vals st).2 h2 (by rw [h3]; exact h2) (by rw [h3]; exact h3)
-      simpa [runReal] using this
-  unfold TimeSt.fresh at *
-  rcases stepList_none lib hlib vals none with ⟨l, hl⟩ | ⟨h0, _⟩
-  · exact key ⟨none, none⟩ rfl (by rw [hl, stepList_some]) (by rw [hl, stepList_some]) h
-  · exact key ⟨none, none⟩ rfl (by rw [h0]; simp only [h0]) (by rw [h0]; simp only [h0]) h
-
-def Ev.ctx? : Ev → Option Ctx
-  | .real c => some c
-  | .probe => none
-
-theorem filter_real_eq (evs : List Ev) : evs.filter Ev.isReal = (evs.filterMap Ev.ctx?).map .real := by
-  induction evs with
-  | nil => rfl
+/-- A static analysis of `{time {0}}` over `elems` that makes no look-up at all saw only empty literals: it leaves
+    the cells alone, and every evaluation – static or on input, from any cells – answers the same and leaves the cells
+    alone. -/
+theorem timeOnElems_static_ret {L : Type} (lib : TimeLib L) :
+    ∀ (elems : List Stage) (st : TimeSt L) (p : List Bytes × TimeSt L),
+      timeOnElems .cur lib elems true st = .ret p →
+      p.2 = st ∧ ∀ (static : Bool) (st' : TimeSt L), timeOnElems .cur lib elems static st' = .ret (p.1, st') := by
+  intro elems
+  induction elems with
+  | nil =>
+    intro st p h
+    simp only [timeOnElems, Comp.ret.injEq] at h
+    subst h
+    exact ⟨rfl, fun _ _ => rfl⟩
   | cons e rest ih =>
-    cases e with
-    | real c => simp only [List.filter_cons, Ev.isReal, if_true, List.filterMap_cons, Ev.ctx?, List.map_cons, ih]
-    | probe => simp only [List.filter_cons, Ev.isReal, Bool.false_eq_true, if_false, List.filterMap_cons, Ev.ctx?, ih]
+    intro st p h
+    simp only [timeOnElems] at h
+    obtain ⟨v, he, hf⟩ := bind_eq_ret h
+    subst he
+    by_cases hv : v = []
+    · subst hv
+      have hstep : ∀ (static : Bool) (s : TimeSt L), timeStep .cur lib [] static [] s = (ErrorParsing, s) := by
+        intro static s; simp [timeStep]
+      simp only [timeTouches_empty, touchIf_false, hstep] at hf
+      obtain ⟨q, hq, hp⟩ := bind_eq_ret hf
+      simp only [Comp.ret.injEq] at hp
+      subst hp
+      obtain ⟨h2, hall⟩ := ih st q hq
+      refine ⟨h2, fun static st' => ?_⟩
+      simp only [timeOnElems, Comp.bind, timeTouches_empty, touchIf_false, hstep, hall static st']
+    · rw [timeTouches_cur_static hv, touchIf_true] at hf
+      cases hf
 
-/-- `optimize_sound` for a constant array of dates behind ONE cache stage, every history. -/
-theorem constStage_optimize {L : Type} (lib : TimeLib L) (hlib : ∀ s l, lib.detect s = none → lib.parse l s = none)
-    (vals : List Bytes) (evs : List Ev) :
-    runEvents (optimizeS (constStage lib vals) TimeSt.fresh) ((constStage lib vals).probeStep TimeSt.fresh).2 evs
-      = runEvents (constStage lib vals) TimeSt.fresh evs := by
-  have hr : runEvents (constStage lib vals) TimeSt.fresh evs
-      = (evs.filter Ev.isReal).map fun _ => .ok (stepList lib false vals TimeSt.fresh).1.flatten := by
-    rw [show constStage lib vals = timeMapStage .cur lib (vals.map Stage.lit) from rfl, timeMap_probe_invisible,
-      filter_real_eq]
-    have := constStage_real lib hlib vals (evs.filterMap Ev.ctx?)
-    simp only [runReal, constStage] at this
-    rw [this]; simp
-  rw [hr]
-  simp only [optimizeS, constStage_probe]
-  rw [runEvents_lit]
-  have := stepList_static_eq lib vals none none none
-  simp only [TimeSt.fresh]
-  rw [this]
+/-- …so the enclosing stage is a literal without memory. -/
+theorem timeMap_static_ret {L : Type} (lib : TimeLib L) (elems : List Stage) (st : TimeSt L) (v : Bytes)
+    (st1 : TimeSt L) (h : timeMapStage .cur lib elems true st = .ret (v, st1)) :
+    timeMapStage .cur lib elems = fun _ st' => .ret (v, st') := by
+  unfold timeMapStage at h
+  obtain ⟨p, hp, hf⟩ := bind_eq_ret h
+  simp only [Comp.ret.injEq, Prod.mk.injEq] at hf
+  obtain ⟨_, hall⟩ := timeOnElems_static_ret lib elems st p hp
+  funext static st'
+  simp only [timeMapStage, hall static st', Comp.bind, hf.1]
+
+/-- Histories from cells that agree on `atomicFormat` answer the same. -/
+theorem timeMap_events_real {L : Type} (lib : TimeLib L) (elems : List Stage) (evs : List Ev) (st st' : TimeSt L)
+    (h : st.real = st'.real) :
+    runEvents (timeMapStage .cur lib elems) st evs = runEvents (timeMapStage .cur lib elems) st' evs := by
+  rw [timeMap_probe_invisible lib elems evs st']
+  exact probe_invisible_of _ TimeSt.real (fun a b c h => timeMap_hreal lib elems a b c h)
+    (timeMap_probeStep lib elems) evs st st' h
+
+/-- **`optimize_sound` for a `cache` stage behind a binder or a funcs-file function** – every library, ANY element
+    stages (constant, dynamic, mixed, panicking), any cells the static analysis starts from, every history. -/
+theorem timeMap_optimize {L : Type} (lib : TimeLib L) (elems : List Stage) (st : TimeSt L) (evs : List Ev) :
+    runEvents (optimizeS (timeMapStage .cur lib elems) st) ((timeMapStage .cur lib elems).probeStep st).2 evs
+      = runEvents (timeMapStage .cur lib elems) st evs := by
+  unfold optimizeS
+  cases hp : ((timeMapStage .cur lib elems).probeStep st).1 with
+  | error m => exact timeMap_events_real lib elems evs _ _ (timeMap_probeStep lib elems st)
+  | ok p =>
+    obtain ⟨v, c⟩ := p
+    cases c with
+    | false => exact timeMap_events_real lib elems evs _ _ (timeMap_probeStep lib elems st)
+    | true =>
+      simp only
+      have hprobe : (timeMapStage .cur lib elems true st).probe
+          = .ok ((v, ((timeMapStage .cur lib elems).probeStep st).2), true) := by
+        unfold SComp.probeStep at hp ⊢
+        cases hq : (timeMapStage .cur lib elems true st).probe with
+        | error m => rw [hq] at hp; cases hp
+        | ok q =>
+          obtain ⟨⟨v', s'⟩, c'⟩ := q
+          rw [hq] at hp
+          simp only [Except.ok.injEq, Prod.mk.injEq] at hp
+          simp [hp.1, hp.2]
+      have hlit := timeMap_static_ret lib elems st v _ (Comp.probe_constant _ _ hprobe)
+      rw [hlit, runEvents_lit, runEvents_lit]
+
+/-- Over constant values one of which is not empty, the static analysis makes a look-up. -/
+theorem timeOnElems_lits_not_ret {L : Type} (lib : TimeLib L) (v : Bytes) (hne : v ≠ []) :
+    ∀ (vals : List Bytes) (st : TimeSt L) (p : List Bytes × TimeSt L), v ∈ vals →
+      timeOnElems .cur lib (vals.map Stage.lit) true st ≠ .ret p := by
+  intro vals
+  induction vals with
+  | nil => intro st p hmem; cases hmem
+  | cons w rest ih =>
+    intro st p hmem hp
+    simp only [List.map_cons, timeOnElems, Stage.lit, Comp.bind] at hp
+    by_cases hw : w = []
+    · subst hw
+      have hv : v ∈ rest := by
+        rcases List.mem_cons.mp hmem with h1 | h1
+        · exact absurd h1 hne
+        · exact h1
+      simp only [timeTouches_empty, touchIf_false] at hp
+      obtain ⟨q, hq, _⟩ := bind_eq_ret hp
+      exact ih _ q hv hq
+    · rw [timeTouches_cur_static hw, touchIf_true] at hp
+      cases hp
+
+/-- **What `optimize` makes of the stage IS the stage** (as a state-passing function): it is either left alone or
+    replaced by a literal it was equal to.  So whatever shares the hidden state with it – other call sites of the
+    same funcs-file function, other elements – sees the same with and without optimisation. -/
+theorem timeMap_optimizeS_eq {L : Type} (lib : TimeLib L) (elems : List Stage) (st : TimeSt L) :
+    optimizeS (timeMapStage .cur lib elems) st = timeMapStage .cur lib elems := by
+  unfold optimizeS
+  cases hp : ((timeMapStage .cur lib elems).probeStep st).1 with
+  | error m => rfl
+  | ok p =>
+    obtain ⟨v, c⟩ := p
+    cases c with
+    | false => rfl
+    | true =>
+      simp only
+      have hprobe : (timeMapStage .cur lib elems true st).probe
+          = .ok ((v, ((timeMapStage .cur lib elems).probeStep st).2), true) := by
+        unfold SComp.probeStep at hp ⊢
+        cases hq : (timeMapStage .cur lib elems true st).probe with
+        | error m => rw [hq] at hp; cases hp
+        | ok q =>
+          obtain ⟨⟨v', s'⟩, c'⟩ := q
+          rw [hq] at hp
+          simp only [Except.ok.injEq, Prod.mk.injEq] at hp
+          simp [hp.1, hp.2]
+      exact (timeMap_static_ret lib elems st v _ (Comp.probe_constant _ _ hprobe)).symm
+
+/-- A value that is not empty is never folded: the static analysis of the stage over constant values reports
+    "not constant" as soon as one of them is non-empty. -/
+theorem timeMap_nonempty_not_constant {L : Type} (lib : TimeLib L) (vals : List Bytes) (st : TimeSt L)
+    (h : ∃ v ∈ vals, v ≠ []) :
+    ∀ r, ((timeMapStage .cur lib (vals.map Stage.lit)).probeStep st).1 ≠ .ok (r, true) := by
+  intro r hr
+  have hprobe : (timeMapStage .cur lib (vals.map Stage.lit) true st).probe
+      = .ok ((r, ((timeMapStage .cur lib (vals.map Stage.lit)).probeStep st).2), true) := by
+    unfold SComp.probeStep at hr ⊢
+    cases hq : (timeMapStage .cur lib (vals.map Stage.lit) true st).probe with
+    | error m => rw [hq] at hr; cases hr
+    | ok q =>
+      obtain ⟨⟨v', s'⟩, c'⟩ := q
+      rw [hq] at hr
+      simp only [Except.ok.injEq, Prod.mk.injEq] at hr
+      simp [hr.1, hr.2]
+  have hret := Comp.probe_constant _ _ hprobe
+  unfold timeMapStage at hret
+  obtain ⟨p, hp, _⟩ := bind_eq_ret hret
+  obtain ⟨v, hmem, hne⟩ := h
+  exact timeOnElems_lits_not_ret lib v hne vals st p hmem hp
 
 /-! ### the witness: a library whose parser is more lenient than its detector -/
 
